@@ -106,14 +106,15 @@ ExpectedStates ==
       With(S) == ApplyChg(snap.state, Flatten([F EXCEPT ![f] = S]))
       c == Ev.dclass
   IN IF c \in {"payload", "multi"} THEN {With(Sub(R, 1, r - 1) \o Sub(R, r + 1, n))}
-     ELSE IF c \in {"len", "lenbig"}
+     ELSE IF c \in {"len", "lenbig", "lenmerge"}
           THEN {With(Sub(R, 1, r - 1) \o o \o Sub(R, j, n)) : j \in (r + 1)..(n + 1), o \in {<<>>, <<R[r]>>}}
      ELSE IF c \in {"trunc", "truncb"} THEN {With(Sub(R, 1, r - 1))}
      ELSE IF c \in {"append", "transplant"} THEN {With(R)}
      ELSE IF c = "dup" THEN {With(R), With(Append(R, R[r]))}
      ELSE {}
-Detectable == {"payload", "multi", "len", "lenbig", "trunc", "append", "transplant", "snapbody", "snaphdr"}
-ExactChecked == Ev.dclass \notin {"snapbody", "snaphdr"} /\ Ev.described /\ snap.known
+Detectable == {"payload", "multi", "len", "lenbig", "lenmerge", "trunc", "append", "transplant", "snapbody", "snaphdr", "snapappend", "snaptotal"}
+SnapClasses == {"snapbody", "snaphdr", "snapappend", "snaptotal"}
+ExactChecked == Ev.dclass \notin SnapClasses /\ Ev.described /\ snap.known
 
 Damaged == /\ Ev.ev = "Damaged" /\ ndmg' = ndmg + 1
            /\ nexact' = IF Ev.ok /\ ExactChecked THEN nexact + 1 ELSE nexact
@@ -122,6 +123,10 @@ Damaged == /\ Ev.ev = "Damaged" /\ ndmg' = ndmg + 1
               ELSE IF Ev.foreign # 0 \/ ~Genuine(Ev.state) THEN Note("NoInvention", "damaged", Ev.dclass)
               ELSE IF Ev.dclass \in Detectable /\ Ev.failed + Ev.nevents = 0 THEN Note("DamageReported", "damaged", Ev.dclass)
               ELSE IF ExactChecked /\ Ev.state \notin ExpectedStates THEN Note("BeforeDamageHonoured", "damaged", Ev.dclass)
+              (* a second recovery of the same (still damaged) directory honours the same records *)
+              ELSE IF Ev.panic2 \/ ~Ev.ok2 THEN Note("RecoveryCompletes", "damaged-again", Ev.dclass)
+              ELSE IF ExactChecked /\ Ev.state2 \notin ExpectedStates THEN Note("BeforeDamageHonoured", "damaged-again", Ev.dclass)
+              ELSE IF ~ExactChecked /\ Ev.dclass \notin SnapClasses /\ Ev.state2 # Ev.state THEN Note("BeforeDamageHonoured", "damaged-again", Ev.dclass)
               ELSE IF ~MemOk THEN Note("MemoryProportional", "damaged", Ev.dclass)
               ELSE NoNote
            /\ UNCHANGED <<nk, pre, cur, inflight, curop, lastAckTxn, written, snap, nimg>>
